@@ -94,8 +94,12 @@ plan("C15", jobs=lambda tier: seq_jobs("C15", tier), level="exploration", rule=S
 
 def unit_jobs(engine, prop, tier, quick_s=20, thorough_s=240, geoms=("th2", "th1", "th8", "16k", "16k_th2")):
     if tier == "quick":
-        return [job(engine, prop, "default", "vdev", shards=12, budget_s=quick_s),
-                job(engine, prop, "default", "vrel", shards=4, budget_s=quick_s)]
+        # the other compile-time geometries, one shard each (16 shards = one wave on 16 cores)
+        js = [job(engine, prop, "default", "vdev", shards=12 - len(geoms), budget_s=quick_s),
+              job(engine, prop, "default", "vrel", shards=4, budget_s=quick_s)]
+        for g in geoms:
+            js.append(job(engine, prop, g, "vdev", shards=1, budget_s=quick_s))
+        return js
     js = [job(engine, prop, "default", "vdev", shards=8, budget_s=thorough_s, args=["--thorough"]),
           job(engine, prop, "default", "vrel", shards=3, budget_s=thorough_s, args=["--thorough"])]
     for g in geoms:
